@@ -9,6 +9,7 @@ import (
 	"sort"
 	"strings"
 	"sync"
+	"sync/atomic"
 	"testing"
 	"time"
 
@@ -170,6 +171,9 @@ func c16Client(w *world.W, ti int, rq c16Req, pt func(string), res *c16Result) {
 	}
 }
 
+// c16RaceFailAll: in the free-running pass, every validation of this round fails (the stale-if-error path runs next to the caller).
+var c16RaceFailAll atomic.Bool
+
 func c16OriginHandler(x *mc.X, state string, pt func(string)) world.Handler {
 	return func(o *world.Origin, c *world.Call) (*http.Response, error) {
 		if pt != nil {
@@ -185,8 +189,8 @@ func c16OriginHandler(x *mc.X, state string, pt func(string)) world.Handler {
 				answer304 = x.Choose("origin-answer", 2) == 1
 				x.Trace[len(x.Trace)-1].Desc = map[bool]string{false: "200 new", true: "304 + new field"}[answer304]
 			} else {
-				answer304 = c.Seq%2 == 0
-				if c.Seq%5 == 4 { // free-running pass: some validations fail (the stale-if-error path runs next to the caller)
+				answer304 = c.Seq%3 == 0
+				if c.Seq%3 == 1 || c16RaceFailAll.Load() { // free-running pass: some validations fail (the stale-if-error path runs next to the caller)
 					return o.Respond(c, RS{Status: 503}), nil
 				}
 			}
@@ -354,6 +358,7 @@ func TestC16Race(t *testing.T) {
 				}
 				w := world.New(opt)
 				w.NoWait = true
+				c16RaceFailAll.Store(round%4 >= 2)
 				c16Prologue(w, state, 20*time.Second)
 				w.Origin.Handler = c16OriginHandler(nil, state, nil)
 				var wg sync.WaitGroup
